@@ -353,9 +353,13 @@ func (w *world) apply(ws []string) bool {
 		case "response": // response <idref> <size> <fill> [mode=x]
 			size, _ := strconv.Atoi(ws[3])
 			hdr := map[string]string{"Content-Type": "application/octet-stream"}
+			chunked := false
 			for _, a := range ws[5:] {
 				if strings.HasPrefix(a, "mode=") {
 					hdr["Lambda-Runtime-Function-Response-Mode"] = a[5:]
+				}
+				if a == "chunked" { // no Content-Length: the server learns the size only by reading
+					chunked = true
 				}
 			}
 			id := s.Unalias(ws[2])
@@ -363,7 +367,7 @@ func (w *world) apply(ws []string) bool {
 			s.NotePosted(stack.Payload(size, ws[4], 7))
 			w.extra = []string{"h=" + hashOf(stack.Payload(size, ws[4], 7))}
 			s.Do(stack.CallSpec{Actor: "rt", What: "response", Method: "POST", Path: rtAPI + "/runtime/invocation/" + id + "/response", Headers: hdr,
-				Body: stack.Payload(size, ws[4], 7), Proc: p})
+				Body: stack.Payload(size, ws[4], 7), Chunked: chunked, Proc: p})
 		case "slowresponse": // slowresponse <idref> <size> <fill> [tied]: headers and the first half of the body now, the rest on `rt finish`
 			// tied: the upload is made by the runtime process itself and dies with it; otherwise by a sender that outlives it
 			var slowProc *stack.Proc
@@ -419,6 +423,12 @@ func (w *world) apply(ws []string) bool {
 			tok := ws[2]
 			if tok == "good" {
 				tok = p.Env["AWS_CONTAINER_AUTHORIZATION_TOKEN"]
+			}
+			if tok == "bearer" { // derived from the token, but not the token
+				tok = "Bearer " + p.Env["AWS_CONTAINER_AUTHORIZATION_TOKEN"]
+			}
+			if tok == "upper" {
+				tok = strings.ToUpper(p.Env["AWS_CONTAINER_AUTHORIZATION_TOKEN"])
 			}
 			s.Do(stack.CallSpec{Actor: "rt", What: "creds:" + ws[2], Method: "GET", Path: credAPI + "/credentials", Headers: map[string]string{"Authorization": tok}, Proc: p,
 				Render: func(st int, h http.Header, b []byte) string {
